@@ -40,13 +40,14 @@ type call struct {
 }
 
 type target struct {
-	id     string // stable token: <source>:<class>:<key name>
-	class  string
-	calls  []call
-	cost   int    // 0 fast, 1 medium, 2 slow, 3 very slow
-	fresh  func() // optional: replace the shared object by a newly constructed, never used one
-	noSelf bool   // the shared object must not be touched before the first window
-	guard  []*guarded
+	id       string // stable token: <source>:<class>:<key name>
+	class    string
+	calls    []call
+	cost     int    // 0 fast, 1 medium, 2 slow, 3 very slow
+	fresh    func() // optional: replace the shared object by a newly constructed, never used one
+	noSelf   bool   // the shared object must not be touched before the first window
+	guardHit bool
+	guard    []*guarded
 }
 
 type mismatch struct {
@@ -338,14 +339,31 @@ func window(rep *report, seed uint64, t *target, G, reps int) {
 
 // checkGuards verifies that no input (or the spare capacity behind it) was written to.
 func checkGuards(rep *report, t *target) {
+	n := 0
+	first := ""
 	for _, g := range t.guard {
 		if !bytes.Equal(g.s[:cap(g.s)], g.copy) {
-			rep.violate("INPUT MODIFIED: %s wrote into a caller-owned input slice (len %d): now %s, was %s", t.id, len(g.s),
-				trunc(hlib.Tok(g.s[:cap(g.s)]), 48), trunc(hlib.Tok(g.copy), 48))
-			rep.count("INPUT-MODIFIED/" + t.class)
+			if n == 0 {
+				first = fmt.Sprintf("input of len %d cap %d: now %s, was %s", len(g.s), cap(g.s), tail(g.s[:cap(g.s)]), tail(g.copy))
+			}
+			n++
 			copy(g.s[:cap(g.s)], g.copy)
 		}
 	}
+	if n > 0 && !t.guardHit {
+		t.guardHit = true
+		rep.violate("INPUT MODIFIED: %s wrote into caller-owned input slices (%d of %d inputs; bytes behind len() count as the caller's); first: %s",
+			t.id, n, len(t.guard), first)
+		rep.count("INPUT-MODIFIED/" + t.class)
+	}
+}
+
+// tail shows the last bytes of a buffer (where appends into spare capacity land).
+func tail(b []byte) string {
+	if len(b) > 2*spare {
+		return "…" + hlib.Tok(b[len(b)-2*spare:])
+	}
+	return hlib.Tok(b)
 }
 
 // plan gives the goroutine counts and repetitions for a target of the given cost.
